@@ -160,6 +160,7 @@ struct Driver {
   static long idOf(const TC4 &) { return -1; }
   static long idOf(const TC2 &) { return -1; }
   static long idOf(const POD4 &) { return -1; }
+  static long idOf(const OA16 &) { return -1; }
 
   // ---- element event counters
   struct Ev {
@@ -849,6 +850,10 @@ struct Driver {
         for (size_t i = 0; i < static_cast<size_t>(x.size()); ++i)
           if (x.begin()[i].value() == kMoved && !(i < ref[k].size() && ref[k][i] == kMoved) && !(rvOwn && k == a))
             fail(threw ? "C09" : "C02", "visible element " + std::to_string(i) + " is moved-from (container " + std::to_string(k) + ")");
+        // elements live at addresses their type allows (inline slots included)
+        if (x.capacity() != 0 && reinterpret_cast<uintptr_t>(x.data()) % alignof(T) != 0)
+          fail("ALIGN", "element storage of container " + std::to_string(k) + " is not aligned to alignof(T) = " + std::to_string(alignof(T)) +
+                            " (" + (storeOf(x)) + " storage, address mod alignment = " + std::to_string(reinterpret_cast<uintptr_t>(x.data()) % alignof(T)) + ")");
         // C07(a)
         long s = static_cast<long>(x.size()), c = static_cast<long>(x.capacity());
         if (!(x.size() <= x.capacity() && x.capacity() <= x.max_size())) fail("C07", "size<=capacity<=max_size violated: " + std::to_string(s) + "," + std::to_string(c));
@@ -1047,10 +1052,12 @@ static const Entry kTable[] = {
     {"FCV5.u8.TR", &runConfig<CfgFCV<El<1>, 5> >},
     {"FCV6.u8.POD", &runConfig<CfgFCV<POD4, 6> >},
     {"SV3.s32.POD.led", &runConfig<CfgDyn<POD4, LedgerAlloc<POD4, false>, int32_t, 3> >},
+    {"SV2.u32.OA16.led", &runConfig<CfgDyn<OA16, LedgerAlloc<OA16, false>, uint32_t, 2> >},
 #elif GROUP == 7
     {"FCV8.u8.TC4", &runConfig<CfgFCV<TC4, 8> >},
     {"FCV3.s32.NTR", &runConfig<CfgFCVS<El<0>, 3, int32_t> >},
     {"SV4.u8.NTR.led", &runConfig<CfgDyn<El<0>, LedgerAlloc<El<0>, false>, uint8_t, 4> >},
+    {"FCV3.u8.OA16", &runConfig<CfgFCV<OA16, 3> >},
 #endif
 };
 
